@@ -81,8 +81,16 @@ def mutants_of(src, fn, qual):
             return
         out.append({"file": src.path, "func": qual, "line": node.lineno, "a": a, "e": e, "old": old, "new": new, "op": op})
 
-    doc = ast.get_docstring(fn, clean=False)
+    # constants inside error messages / raise statements / warnings only change diagnostics: not mutated
+    skip = set()
     for node in ast.walk(fn):
+        if isinstance(node, (ast.Raise, ast.JoinedStr, ast.Assert)) or (
+                isinstance(node, ast.Call) and isinstance(node.func, ast.Attribute) and node.func.attr == "warn"):
+            for sub in ast.walk(node):
+                skip.add(id(sub))
+    for node in ast.walk(fn):
+        if id(node) in skip:
+            continue
         if isinstance(node, ast.Expr) and isinstance(node.value, ast.Constant) and isinstance(node.value.value, str):
             continue
         if isinstance(node, ast.Compare) and len(node.ops) == 1:
